@@ -118,7 +118,7 @@ EXEC = [
     ("open_stmt", "open(unit = {d1}, file = '{s1}', status = 'old')", "fix one"),
     ("close_stmt", "close(unit = {d1})", "fix one"),
     ("inquire", "inquire(unit = {d1}, exist = {n1})", "fix"),
-    ("rewind", "rewind {d1}", "fix one"),
+    ("rewind", "rewind {d1}", "fix"),
     ("backspace", "backspace(unit = {d1})", "fix"),
     ("endfile", "endfile {d1}", "fix"),
     ("flush", "flush(unit = {d1})", ""),
